@@ -2,13 +2,14 @@
    Statements only: each theorem is closed by [exact], pinned by [Check] and followed by
    [Print Assumptions].
 
-   The model (Model/ExportTx.v) is the code after the three `fix:` commits of this property
+   The model (Model/ExportTx.v) is the code after the `fix:` commits of this property
    (PendingTx keyed by (prefix, path id); initial dump / route refresh hand every candidate
    to the add-path top-N; restale_llgr reports the marked paths as replaced / the marked best
-   as changed).  The RIB is abstracted to its change stream; [truthful_run] is the contract
+   as changed; a route refresh re-sends per path to an add-path peer and its walk is queued on the
+   session's channel behind the changes already there).  The RIB is abstracted to its change stream; [truthful_run] is the contract
    of that stream (flags say what changed, including the LLGR-stale marking of a source),
    [pol_marks_after_accept] the contract of the policy abstraction (LLGR_STALE is added to an
-   accepted route), [Known_C01_refresh_race] the open finding of known_findings.json.
+   accepted route).  No known-finding hypothesis is left: every label sequence is admitted.
    MAXOK max is addpath_tx = (effective_max > 1).  [pol] is indexed by the installed export
    policy; the histories of the theorems keep policy 0 installed (a PolicyChange label is not
    truthful): a policy change during a session is exercised by the correspondence only. *)
@@ -24,67 +25,63 @@ Theorem export_inv_preserved :
   forall (E : Type) (max : N) (vis : path -> bool) (pol : N -> bool -> N -> path -> option E)
          (ls : list label),
     pol_marks_after_accept E (pol 0) ->
-    ok_run E ByNet false max (MAXOK max) vis pol (state0 E) ls ->
-    Inv E max vis (pol 0) 0 (run E ByNet false max (MAXOK max) vis pol ls).
+    ok_run E ByNet false false max (MAXOK max) vis pol (state0 E) ls ->
+    Inv E max vis (pol 0) 0 (run E ByNet false false max (MAXOK max) vis pol ls).
 Proof. exact C01_export_inv_preserved. Qed.
 Check export_inv_preserved :
   forall (E : Type) (max : N) (vis : path -> bool) (pol : N -> bool -> N -> path -> option E)
          (ls : list label),
     pol_marks_after_accept E (pol 0) ->
-    ok_run E ByNet false max (MAXOK max) vis pol (state0 E) ls ->
-    Inv E max vis (pol 0) 0 (run E ByNet false max (MAXOK max) vis pol ls).
+    ok_run E ByNet false false max (MAXOK max) vis pol (state0 E) ls ->
+    Inv E max vis (pol 0) 0 (run E ByNet false false max (MAXOK max) vis pol ls).
 Print Assumptions export_inv_preserved.
 
 (* (T2) Established, nothing queued, nothing pending: the neighbour's Adj-RIB-In is
    exactly what a brand-new session would be sent now. *)
-Theorem quiescent_view_eq_fresh_outside_known :
+Theorem quiescent_view_eq_fresh :
   forall (E : Type) (max : N) (vis : path -> bool) (pol : N -> bool -> N -> path -> option E)
          (ls : list label),
     pol_marks_after_accept E (pol 0) ->
-    truthful_run E ByNet false max (MAXOK max) vis pol (state0 E) ls ->
-    ~ Known_C01_refresh_race E ByNet false max (MAXOK max) vis pol (state0 E) ls ->
-    let s := run E ByNet false max (MAXOK max) vis pol ls in
+    truthful_run E ByNet false false max (MAXOK max) vis pol (state0 E) ls ->
+    let s := run E ByNet false false max (MAXOK max) vis pol ls in
     established E s -> quiescent E s ->
     same_routes E (view E s) (fresh E ByNet false max (MAXOK max) vis pol s).
-Proof. exact C01_quiescent_view_eq_fresh_outside_known. Qed.
-Check quiescent_view_eq_fresh_outside_known :
+Proof. exact C01_quiescent_view_eq_fresh. Qed.
+Check quiescent_view_eq_fresh :
   forall (E : Type) (max : N) (vis : path -> bool) (pol : N -> bool -> N -> path -> option E)
          (ls : list label),
     pol_marks_after_accept E (pol 0) ->
-    truthful_run E ByNet false max (MAXOK max) vis pol (state0 E) ls ->
-    ~ Known_C01_refresh_race E ByNet false max (MAXOK max) vis pol (state0 E) ls ->
-    let s := run E ByNet false max (MAXOK max) vis pol ls in
+    truthful_run E ByNet false false max (MAXOK max) vis pol (state0 E) ls ->
+    let s := run E ByNet false false max (MAXOK max) vis pol ls in
     established E s -> quiescent E s ->
     same_routes E (view E s) (fresh E ByNet false max (MAXOK max) vis pol s).
-Print Assumptions quiescent_view_eq_fresh_outside_known.
+Print Assumptions quiescent_view_eq_fresh.
 
 (* (T3) At any point of an admissible history: a route the neighbour holds and a fresh
    session would not be sent has its withdrawal waiting for the socket, or a change of its
    prefix is still queued. *)
-Theorem no_lost_withdrawal_outside_known :
+Theorem no_lost_withdrawal :
   forall (E : Type) (max : N) (vis : path -> bool) (pol : N -> bool -> N -> path -> option E)
          (ls : list label),
     pol_marks_after_accept E (pol 0) ->
-    truthful_run E ByNet false max (MAXOK max) vis pol (state0 E) ls ->
-    ~ Known_C01_refresh_race E ByNet false max (MAXOK max) vis pol (state0 E) ls ->
-    let s := run E ByNet false max (MAXOK max) vis pol ls in
+    truthful_run E ByNet false false max (MAXOK max) vis pol (state0 E) ls ->
+    let s := run E ByNet false false max (MAXOK max) vis pol ls in
     established E s ->
     forall k e, kfind k (view E s) = Some e ->
                 kfind k (fresh E ByNet false max (MAXOK max) vis pol s) = None ->
                 withdrawal_pending E s k \/ change_undelivered E s k.
-Proof. exact C01_no_lost_withdrawal_outside_known. Qed.
-Check no_lost_withdrawal_outside_known :
+Proof. exact C01_no_lost_withdrawal. Qed.
+Check no_lost_withdrawal :
   forall (E : Type) (max : N) (vis : path -> bool) (pol : N -> bool -> N -> path -> option E)
          (ls : list label),
     pol_marks_after_accept E (pol 0) ->
-    truthful_run E ByNet false max (MAXOK max) vis pol (state0 E) ls ->
-    ~ Known_C01_refresh_race E ByNet false max (MAXOK max) vis pol (state0 E) ls ->
-    let s := run E ByNet false max (MAXOK max) vis pol ls in
+    truthful_run E ByNet false false max (MAXOK max) vis pol (state0 E) ls ->
+    let s := run E ByNet false false max (MAXOK max) vis pol ls in
     established E s ->
     forall k e, kfind k (view E s) = Some e ->
                 kfind k (fresh E ByNet false max (MAXOK max) vis pol s) = None ->
                 withdrawal_pending E s k \/ change_undelivered E s k.
-Print Assumptions no_lost_withdrawal_outside_known.
+Print Assumptions no_lost_withdrawal.
 
 (* (T4) What `Register` dumps is the closed form of the export rules: the best path only /
    the first send-max visible candidates, each through the export policy. *)
@@ -92,8 +89,8 @@ Theorem fresh_is_export_rules :
   forall (E : Type) (max : N) (vis : path -> bool) (pol : N -> bool -> N -> path -> option E)
          (ls : list label),
     pol_marks_after_accept E (pol 0) ->
-    ok_run E ByNet false max (MAXOK max) vis pol (state0 E) ls ->
-    let s := run E ByNet false max (MAXOK max) vis pol ls in
+    ok_run E ByNet false false max (MAXOK max) vis pol (state0 E) ls ->
+    let s := run E ByNet false false max (MAXOK max) vis pol ls in
     forall k, kfind k (fresh E ByNet false max (MAXOK max) vis pol s)
               = fresh_at E max vis (pol 0) (live (s_llgr s)) (s_rib s) k.
 Proof. exact C01_fresh_is_export_rules. Qed.
@@ -101,8 +98,8 @@ Check fresh_is_export_rules :
   forall (E : Type) (max : N) (vis : path -> bool) (pol : N -> bool -> N -> path -> option E)
          (ls : list label),
     pol_marks_after_accept E (pol 0) ->
-    ok_run E ByNet false max (MAXOK max) vis pol (state0 E) ls ->
-    let s := run E ByNet false max (MAXOK max) vis pol ls in
+    ok_run E ByNet false false max (MAXOK max) vis pol (state0 E) ls ->
+    let s := run E ByNet false false max (MAXOK max) vis pol ls in
     forall k, kfind k (fresh E ByNet false max (MAXOK max) vis pol s)
               = fresh_at E max vis (pol 0) (live (s_llgr s)) (s_rib s) k.
 Print Assumptions fresh_is_export_rules.
@@ -155,20 +152,91 @@ Check quiescent_view_eq_fresh_refuted_unreported_llgr :
   exists k, kfind k (view CE s) <> kfind k (cfresh g s).
 Print Assumptions quiescent_view_eq_fresh_refuted_unreported_llgr.
 
-(* open finding C01-refresh-race (current code) *)
-Theorem no_lost_withdrawal_refuted_refresh_race :
-  let g := G ByNet false 2 [1] in
+(* code before the fix of C01-refresh-race (do_route_refresh walked the RIB at once, ahead of
+   the changes queued for the session) *)
+Theorem no_lost_withdrawal_refuted_inline_refresh :
+  let g := GI 2 [1] in
   let s := crun g w_race in
-  Known_C01_refresh_race CE ByNet false 2 true (cvis g) (cpolv g) (state0 CE) w_race /\
   established CE s /\ quiescent CE s /\
   exists k e, kfind k (view CE s) = Some e /\ kfind k (cfresh g s) = None /\
               ~ withdrawal_pending CE s k /\ ~ change_undelivered CE s k.
-Proof. exact C01_no_lost_withdrawal_refuted_refresh_race. Qed.
-Check no_lost_withdrawal_refuted_refresh_race :
-  let g := G ByNet false 2 [1] in
+Proof. exact C01_no_lost_withdrawal_refuted_inline_refresh. Qed.
+Check no_lost_withdrawal_refuted_inline_refresh :
+  let g := GI 2 [1] in
   let s := crun g w_race in
-  Known_C01_refresh_race CE ByNet false 2 true (cvis g) (cpolv g) (state0 CE) w_race /\
   established CE s /\ quiescent CE s /\
   exists k e, kfind k (view CE s) = Some e /\ kfind k (cfresh g s) = None /\
               ~ withdrawal_pending CE s k /\ ~ change_undelivered CE s k.
-Print Assumptions no_lost_withdrawal_refuted_refresh_race.
+Print Assumptions no_lost_withdrawal_refuted_inline_refresh.
+
+(* (T5) End-of-RIB: one is buffered with the initial dump of a session and leaves right behind
+   the dump; one is scheduled when a queued route-refresh walk has been applied and leaves last
+   in the next batch; a flush or the end of the session clears both; no other step touches them. *)
+Theorem eor_emission :
+  forall (E : Type) (max : N) (vis : path -> bool) (polv : N -> bool -> N -> path -> option E)
+         (s : state E) (l : label),
+  let n := s_nbr s in
+  let n' := s_nbr (step E ByNet false false max (MAXOK max) vis polv s l) in
+  match l with
+  | Register => n_beor n' = true /\ n_eor n' = false /\
+                eor_positions n' = [N.of_nat (length (n_buf n'))]
+  | Flush | Unregister => n_beor n' = false /\ n_eor n' = false /\ eor_positions n' = []
+  | Deliver => n_beor n' = n_beor n /\ n_eor n' = (n_eor n || walk_at_head E n)
+  | _ => n_beor n' = n_beor n /\ n_eor n' = n_eor n
+  end.
+Proof. exact C01_eor_emission. Qed.
+Check eor_emission :
+  forall (E : Type) (max : N) (vis : path -> bool) (polv : N -> bool -> N -> path -> option E)
+         (s : state E) (l : label),
+  let n := s_nbr s in
+  let n' := s_nbr (step E ByNet false false max (MAXOK max) vis polv s l) in
+  match l with
+  | Register => n_beor n' = true /\ n_eor n' = false /\
+                eor_positions n' = [N.of_nat (length (n_buf n'))]
+  | Flush | Unregister => n_beor n' = false /\ n_eor n' = false /\ eor_positions n' = []
+  | Deliver => n_beor n' = n_beor n /\ n_eor n' = (n_eor n || walk_at_head E n)
+  | _ => n_beor n' = n_beor n /\ n_eor n' = n_eor n
+  end.
+Print Assumptions eor_emission.
+
+(* (T6) PendingTx coalescing: per route, the last event queued between two flushes wins. *)
+Theorem pending_last_event_wins :
+  forall (E : Type) (p : ptx E) (k' : key) (e : E) (k : key),
+    pview E (ptx_reach E k' (fst k') e p) k = (if key_eqb k k' then Some (Some e) else pview E p k) /\
+    pview E (ptx_unreach E k' (fst k') p) k = (if key_eqb k k' then Some None else pview E p k) /\
+    (coherent E p -> coherent E (ptx_reach E k' (fst k') e p) /\ coherent E (ptx_unreach E k' (fst k') p)).
+Proof. exact C01_pending_last_event_wins. Qed.
+Check pending_last_event_wins :
+  forall (E : Type) (p : ptx E) (k' : key) (e : E) (k : key),
+    pview E (ptx_reach E k' (fst k') e p) k = (if key_eqb k k' then Some (Some e) else pview E p k) /\
+    pview E (ptx_unreach E k' (fst k') p) k = (if key_eqb k k' then Some None else pview E p k) /\
+    (coherent E p -> coherent E (ptx_reach E k' (fst k') e p) /\ coherent E (ptx_unreach E k' (fst k') p)).
+Print Assumptions pending_last_event_wins.
+
+(* (T7) Flush order: buffered initial dump, then withdrawals, then announcements. *)
+Theorem flush_order :
+  forall (E : Type) (n : nbr E) (k : key),
+    coherent E (n_ptx n) ->
+    kfind k (flush_mirror E n) =
+    match pview E (n_ptx n) k with
+    | Some (Some e) => Some e
+    | Some None => None
+    | None => match kfind k (rev (n_buf n)) with
+              | Some e => Some e
+              | None => kfind k (n_mirror n)
+              end
+    end.
+Proof. exact C01_flush_order. Qed.
+Check flush_order :
+  forall (E : Type) (n : nbr E) (k : key),
+    coherent E (n_ptx n) ->
+    kfind k (flush_mirror E n) =
+    match pview E (n_ptx n) k with
+    | Some (Some e) => Some e
+    | Some None => None
+    | None => match kfind k (rev (n_buf n)) with
+              | Some e => Some e
+              | None => kfind k (n_mirror n)
+              end
+    end.
+Print Assumptions flush_order.
